@@ -185,9 +185,17 @@ pub fn generate(seed: u64, class: &str) -> Scenario {
     // first evaluation of each is contended) and two of them dozens of times (state that an
     // Expression, its tree or its literals acquire after N searches).
     let shared = class == "shared";
+    // "crowd": more threads than any small fixed-size per-thread table has slots (20).
+    let crowd = class == "crowd";
+    // "bigsort": a few threads sorting thousands of elements at once (size-thresholded
+    // code paths: worker pools, chunking, scratch buffers).
+    let bigsort = class == "bigsort";
+    // "manytexts": over a thousand distinct expressions through one runtime, then cache
+    // hits racing cache misses (bounded caches start evicting).
+    let manytexts = class == "manytexts";
     let mut r = Rng::new(seed);
     let mut base = small_doc(&mut r);
-    if class != "general" && class != "shared" && r.chance(1, 2) {
+    if class != "general" && class != "shared" && class != "crowd" && r.chance(1, 2) {
         // top-level array documents: the records array itself
         if let J::Obj(m) = &base {
             if let Some((_, xs)) = m.iter().find(|(k, _)| k == "xs") {
@@ -202,7 +210,7 @@ pub fn generate(seed: u64, class: &str) -> Scenario {
         docs.push(base.mutated(&mut r).to_json());
     }
     let npre = 1 + r.below(2);
-    let touch_default_first = if race || late { false } else if pool || deep || hot || shared { true } else { r.chance(1, 2) };
+    let touch_default_first = if race || late { false } else if pool || deep || hot || shared || crowd || bigsort || manytexts { true } else { r.chance(1, 2) };
     #[allow(unused_assignments)]
     let mut pre = vec![];
     for _ in 0..npre {
@@ -230,8 +238,19 @@ pub fn generate(seed: u64, class: &str) -> Scenario {
     if shared {
         pre = SHARED_TEXTS.iter().map(|t| (true, t.to_string())).collect();
     }
-    let nthreads = if pool { 3 + r.below(2) } else if deep { 5 } else if hot || shared { 4 } else { 2 + r.below(3) };
-    let pool_texts: Vec<String> = (0..3).map(|_| gen_text(&mut r, &base, false)).collect();
+    if bigsort {
+        let ys: Vec<J> = (0..4600).map(|i| J::Int(((i * 7919) % 4001) as i64)).collect();
+        let zs: Vec<J> = (0..4300).map(|i| J::Int(((i * 104729) % 3001) as i64 + 5000)).collect();
+        docs = vec![J::Obj(vec![("ys".into(), J::Arr(ys))]).to_json(), J::Obj(vec![("ys".into(), J::Arr(zs))]).to_json()];
+    }
+    let nthreads = if pool { 3 + r.below(2) } else if deep { 5 } else if hot || shared { 4 } else if crowd { 20 } else if bigsort { 3 } else if manytexts { 2 } else { 2 + r.below(3) };
+    let mut pool_texts: Vec<String> = (0..3).map(|_| gen_text(&mut r, &base, false)).collect();
+    // one of the pooled texts carries a literal of a few hundred bytes: every compile makes
+    // (or shares) it and every finished operation drops it, on several threads at once
+    pool_texts[2] = format!(
+        "length(`[{}]`) || s",
+        (0..40).map(|i| format!("\"member-{:03}\"", i)).collect::<Vec<_>>().join(", ")
+    );
     let mut threads = vec![];
     for t in 0..nthreads {
         let nops = 2 + r.below(4);
@@ -250,6 +269,29 @@ pub fn generate(seed: u64, class: &str) -> Scenario {
             ops.push(Op::WaitFor { t: 0, n: 1 });
             let d = r.below(docs.len());
             ops.push(Op::CompileSearch { text: gen_text(&mut r, &base, false), d });
+        }
+        if crowd {
+            ops.push(Op::CompileSearch { text: "sort_by(xs, &id)[*].id".to_string(), d: 0 });
+            ops.push(Op::CompileSearch { text: "max_by(xs, &id).id || sort(a)".to_string(), d: 0 });
+        }
+        if bigsort {
+            ops.push(Op::CompileSearch { text: "sort(ys)[:3]".to_string(), d: t % 2 });
+            ops.push(Op::CompileSearch { text: "sort(ys)[-1]".to_string(), d: (t + 1) % 2 });
+        }
+        if manytexts {
+            if t == 0 {
+                for i in 0..1040 {
+                    ops.push(Op::CompileSearch { text: format!("a[{}] || s", i), d: 0 });
+                }
+                for i in 0..12 {
+                    ops.push(Op::CompileSearch { text: format!("xs[{}] || a", 2000 + i), d: 0 });
+                }
+            } else {
+                ops.push(Op::WaitFor { t: 0, n: 1040 });
+                for i in 0..12 {
+                    ops.push(Op::CompileSearch { text: format!("a[{}] || s", 1030 - i), d: 0 });
+                }
+            }
         }
         if shared {
             let _ = t;
@@ -292,7 +334,7 @@ pub fn generate(seed: u64, class: &str) -> Scenario {
                 ops.push(Op::CompileSearch { text: r.pick(&pool_texts).clone(), d });
             }
         }
-        if !(race || late || pool || deep || hot || shared) {
+        if !(race || late || pool || deep || hot || shared || crowd || bigsort || manytexts) {
             // general class: a sliding window over KINDS, shifted by one per thread, so that
             // neighbouring threads evaluate the same kinds (compiled afresh or pre-compiled)
             let start = r.below(KINDS.len());
@@ -301,7 +343,7 @@ pub fn generate(seed: u64, class: &str) -> Scenario {
                 ops.push(Op::CompileSearch { text: KINDS[(start + t + k) % KINDS.len()].to_string(), d });
             }
         }
-        for _ in ops.len()..(if deep || hot || shared { 0 } else { nops.max(ops.len() + 1) }) {
+        for _ in ops.len()..(if deep || hot || shared || crowd || bigsort || manytexts { 0 } else { nops.max(ops.len() + 1) }) {
             let d = r.below(docs.len());
             let e = r.below(pre.len());
             ops.push(match r.below(10) {
